@@ -56,8 +56,9 @@ func c09Gen(seed uint64, tier string) any {
 			"func lp(n0) { i = 0; s = 0; while i < n0 { s = s + i; i = i + 1 }; return s }; &lc = lp(4) + 1; 2",
 			"&tc = `a{% if 1 { 2 } %}b{d4}`; 3", "func em() { }; &ec = em() ?? 5; 4", "func ee() {}; 5", "func two(u, v, w) { return u * 100 + v * 10 + w }; &tw = two(1, 2, 3); 6",
 			"func inner() { return 2d6 }; func outer() { return inner() + inner() }; &oc = outer(); 7", "&ca = 1; &cb = ca + 1; &cc = cb + ca; 8",
+			"func crlf() { return `Hello,\r\nwelcome {1+1}` }; &crc = 'a\r\nb' + `c\r\n`; 9", "func tabs() { return 'x\ty' + `\r` + '\r\n' }; 10", "func cm() { return 1 // trailing comment\r\n }; 11",
 		}))
-		sc.Stmts = append(sc.Stmts, Pick(r, []string{"fc", "lc", "tc", "ec", "ee()", "em()", "tw", "oc + oc", "cc", "fact(3)", "lp(3)", "two(3,2,1)", "outer()"}))
+		sc.Stmts = append(sc.Stmts, Pick(r, []string{"fc", "lc", "tc", "ec", "ee()", "em()", "tw", "oc + oc", "cc", "fact(3)", "lp(3)", "two(3,2,1)", "outer()", "crlf()", "crlf() + crc", "tabs()", "cm()"}))
 	}
 	if r.Chance(1, 5) {
 		// values no snapshot can hold (the snapshot is refused), sometimes repaired in place afterwards:
